@@ -107,6 +107,7 @@ Proof. destruct bang; cbn; [rewrite orb_true_r|rewrite orb_false_r]; reflexivity
 Lemma pipe_result_single pf r : pipe_result pf [r] = r.
 Proof. destruct r as [c f]. unfold pipe_result, rightmost_failure, is_success. cbn. destruct pf; [|reflexivity]. destruct (Nat.eqb c 0); reflexivity. Qed.
 
+Lemma slast_emb w b c l : slast (emb w b c l) = last (sh w). Proof. reflexivity. Qed.
 Lemma busy_emb0 w l : busy (emb w 0 0 l) = false. Proof. reflexivity. Qed.
 Lemma busy_emb_b w k c l : busy (emb w (S k) c l) = true. Proof. reflexivity. Qed.
 Lemma busy_emb_c w k l : busy (emb w 0 (S k) l) = true. Proof. reflexivity. Qed.
@@ -330,4 +331,507 @@ Section Sim.
             (split; [|reflexivity]); cbn [expect snd fst]; exists s; repeat split; assumption.
     - apply Mrec.
   Qed.
+
+  Lemma sim_pipeline p stk ctx lv w :
+    scope_pipeline scope_cmd ctx p = [] -> funs_ok (sh w) -> length ctx <= lv ->
+    sim (expect_s ctx lv) (exec_pipeline rec p (exempt stk) w) (spipeline srec p stk (emb w 0 0 lv)).
+  Proof.
+    destruct p as [bang [|c [|c' cs]]]; unfold scope_pipeline; cbn [snd]; try discriminate.
+    apply sim_pipeline1.
+  Qed.
+
+  (** what the model does with a pipeline-level outcome that is not Normal: it stops; bash skips *)
+  Lemma expect_s_stop ctx lv r w o1 (k : bstate -> sres) :
+    expect_s ctx lv r w o1 -> is_normal r = false ->
+    (forall s, busy s = true -> k s = SNorm s) ->
+    expect_s ctx lv r w (sbind o1 k).
+  Proof.
+    intros [He Hs] Hn Hk. split; [|exact Hs]. destruct r as [code fl]. unfold expect in *. cbn [snd fst] in *.
+    destruct fl; try discriminate Hn.
+    - destruct He as [-> Hb]. cbn [sbind]. rewrite Hk by reflexivity. split; [reflexivity|exact Hb].
+    - destruct He as [-> Hb]. cbn [sbind]. rewrite Hk by reflexivity. split; [reflexivity|exact Hb].
+    - destruct He as (b & c & l' & ->). do 3 eexists; reflexivity.
+    - destruct He as (s & -> & H1 & H2). exists s. repeat split; assumption.
+  Qed.
+
+  Lemma expect_s_normal ctx lv r w o1 :
+    expect_s ctx lv r w o1 -> is_normal r = true -> o1 = SNorm (emb w 0 0 lv).
+  Proof.
+    intros [He Hs] Hn. destruct r as [code fl]. unfold expect in He. cbn [snd fst] in *.
+    destruct fl; try discriminate Hn. rewrite He, set_last_id by exact Hs. reflexivity.
+  Qed.
+
+  (** *** and-or lists *)
+  Lemma sim_andor_rest stk ctx lv rest : forall res w o1,
+    flat_map (fun x => scope_pipeline scope_cmd ctx (snd x)) rest = [] ->
+    expect_s ctx lv res w o1 -> funs_ok (sh w) -> length ctx <= lv ->
+    sim (expect_s ctx lv) (andor_rest rec rest (exempt stk) res w) (sbind o1 (sandor_rest srec rest stk)).
+  Proof.
+    induction rest as [|[is_and p] rest IH]; intros res w o1 Hs He Hf Hl; cbn [andor_rest sandor_rest].
+    - intros _. split; [|exact Hf]. change (fun s => SNorm s) with (fun s : bstate => SNorm s).
+      rewrite sbind_norm. exact He.
+    - cbn [flat_map snd] in Hs. apply app_eq_nil in Hs as [Hs1 Hs2].
+      destruct (is_normal res) eqn:En; cbn [negb].
+      + pose proof (expect_s_normal _ _ _ _ _ He En) as ->. cbn [sbind].
+        assert (Hok : ok (emb w 0 0 lv) = is_success res).
+        { destruct He as [_ Hsy]. unfold ok, slast, is_success. cbn. rewrite Hsy. reflexivity. }
+        rewrite Hok. destruct (Bool.eqb is_and (is_success res)).
+        * set (stk' := match rest with [] => stk | _ => PNonFinal :: stk end).
+          replace (if match rest with [] => true | _ => false end then exempt stk else true) with (exempt stk')
+            by (subst stk'; destruct rest; reflexivity).
+          eapply (sim_bind w) with (P := expect_s ctx lv).
+          -- apply sim_pipeline; assumption.
+          -- intros r w1. apply mono_andor_rest; assumption.
+          -- intros ->. reflexivity.
+          -- intros r w1 _ Hg HP Hf1. apply IH; assumption.
+          -- apply mono_pipeline; assumption.
+        * apply (IH res w (SNorm (emb w 0 0 lv))); try assumption.
+      + intros _. split; [|exact Hf]. apply expect_s_stop; [exact He|exact En|].
+        intros s Hb. cbn [sandor_rest]. destruct (Bool.eqb is_and (ok s)).
+        * rewrite spipeline_skip by exact Hb. apply sandor_rest_skip, Hb.
+        * apply sandor_rest_skip, Hb.
+  Qed.
+
+  Lemma sim_andor a stk ctx lv w :
+    scope_andor scope_cmd ctx a = [] -> funs_ok (sh w) -> length ctx <= lv ->
+    sim (expect_s ctx lv) (exec_andor rec a (exempt stk) w) (sandor srec a stk (emb w 0 0 lv)).
+  Proof.
+    destruct a as [first rest]. unfold scope_andor, exec_andor, sandor. cbn [fst snd].
+    intros Hs Hf Hl. apply app_eq_nil in Hs as [Hs1 Hs2].
+    set (stk' := match rest with [] => stk | _ => PNonFinal :: stk end).
+    replace (if match rest with [] => false | _ => true end then true else exempt stk) with (exempt stk')
+      by (subst stk'; destruct rest; reflexivity).
+    eapply (sim_bind w) with (P := expect_s ctx lv).
+    - apply sim_pipeline; assumption.
+    - intros r w1. apply mono_andor_rest; assumption.
+    - intros ->. reflexivity.
+    - intros r w1 _ Hg HP Hf1. apply sim_andor_rest; assumption.
+    - apply mono_pipeline; assumption.
+  Qed.
+
+  (** *** compound lists *)
+  Lemma sim_clist_cons stk ctx lv l : forall a res w,
+    flat_map (scope_andor scope_cmd ctx) (a :: l) = [] -> funs_ok (sh w) -> length ctx <= lv ->
+    sim (expect_s ctx lv) (clist_items rec (a :: l) (exempt stk) res w) (slist srec (a :: l) stk (emb w 0 0 lv)).
+  Proof.
+    induction l as [|a' l IH]; intros a res w Hs Hf Hl; cbn [flat_map] in Hs; apply app_eq_nil in Hs as [Hs1 Hs2];
+      cbn [clist_items slist].
+    - eapply (sim_bind w) with (P := expect_s ctx lv).
+      + apply sim_andor; assumption.
+      + intros r w1. destruct (negb (is_normal r)); apply mono_same; reflexivity.
+      + intros ->. reflexivity.
+      + intros r w1 _ Hg HP Hf1. rewrite (set_last_id (fst r) w1) by apply HP.
+        destruct (is_normal r) eqn:En; cbn [negb]; intros _; (split; [|exact Hf1]).
+        * rewrite (expect_s_normal _ _ _ _ _ HP En). cbn [sbind]. rewrite <- (expect_s_normal _ _ _ _ _ HP En). exact HP.
+        * apply expect_s_stop; [exact HP|exact En|]. intros; reflexivity.
+      + apply mono_andor; assumption.
+    - eapply (sim_bind w) with (P := expect_s ctx lv).
+      + apply sim_andor; assumption.
+      + intros r w1. destruct (negb (is_normal r)); [apply mono_same; reflexivity|].
+        apply (mono_shift w1 (set_last (fst r) w1)); [reflexivity|].
+        exact (mono_clist_items rec Mrec (a' :: l) (exempt stk) r (set_last (fst r) w1)).
+      + intros ->. reflexivity.
+      + intros r w1 _ Hg HP Hf1. rewrite (set_last_id (fst r) w1) by apply HP.
+        destruct (is_normal r) eqn:En; cbn [negb].
+        * rewrite (expect_s_normal _ _ _ _ _ HP En). cbn [sbind].
+          exact (IH a' r w1 Hs2 Hf1 Hl).
+        * intros _. split; [|exact Hf1]. apply expect_s_stop; [exact HP|exact En|].
+          intros s Hb. apply (slist_skip (a' :: l)), Hb.
+      + apply mono_andor; assumption.
+  Qed.
+
+  Lemma sim_clist l stk ctx lv w :
+    scope_clist scope_cmd ctx l = [] -> funs_ok (sh w) -> length ctx <= lv ->
+    sim (expect_s ctx lv) (exec_clist rec l (exempt stk) w) (slist srec l stk (emb w 0 0 lv)).
+  Proof.
+    destruct l as [|a l]; [discriminate|]. unfold scope_clist, exec_clist. apply sim_clist_cons.
+  Qed.
+
+  (** *** after a loop body (shared by for and while/until) *)
+  Definition spec_after_body (ks : status -> bstate -> sres) (s1 : bstate) : sres :=
+    let '(leave, s2) := after_body s1 in
+    if leave then SNorm (b_set_last (slast s2) (loop_leave s2)) else ks (slast s2) s2.
+
+  Lemma body_step ctx lv r w1 o1 (KM : outcome result) (ks : status -> bstate -> sres) :
+    expect_s (FLoop :: ctx) (S lv) r w1 o1 -> funs_ok (sh w1) ->
+    (snd (dec_result r) = Normal -> sim (expect_s ctx lv) KM (ks (fst r) (emb w1 0 0 (S lv)))) ->
+    sim (expect_s ctx lv)
+        (if is_return_or_exit r then finish r w1
+         else if is_break r || is_continue (dec_result r) then finish (dec_result r) w1 else KM)
+        (sbind o1 (spec_after_body ks)).
+  Proof.
+    intros [He Hsy] Hf Hk. destruct r as [code fl]. unfold expect in He. cbn [fst snd] in *.
+    assert (Hid : set_last code w1 = w1) by (apply set_last_id, Hsy).
+    unfold is_return_or_exit, is_break, is_continue, dec_result. cbn [fst snd].
+    destruct fl as [|k|k| |]; cbn [dec].
+    - rewrite He, Hid. cbn [sbind orb]. unfold spec_after_body. cbn. rewrite slast_emb, Hsy. apply Hk. reflexivity.
+    - destruct He as [-> Hb]. cbn [sbind]. unfold spec_after_body. cbn [after_body breaking emb].
+      cbn [orb finish sim]. intros _. split; [|exact Hf]. unfold expect_s, expect.
+      destruct k as [|k']; cbn [snd fst dec]; (split; [|reflexivity]).
+      + reflexivity.
+      + split; [reflexivity|]. cbn [length] in Hb. lia.
+    - destruct He as [-> Hb]. cbn [sbind]. unfold spec_after_body. cbn [after_body breaking continuing emb].
+      destruct k as [|k']; cbn [snd fst dec orb Nat.eqb negb].
+      + change (sim (expect_s ctx lv) KM (ks code (emb (set_last code w1) 0 0 (S lv)))).
+        rewrite Hid. apply Hk. reflexivity.
+      + cbn [finish sim]. intros _. split; [|exact Hf]. unfold expect_s, expect. cbn [snd fst]. split; [|reflexivity].
+        split; [reflexivity|]. exact Hb.
+    - destruct He as (b & c & l' & ->). cbn [sbind finish sim]. intros _. split; [|exact Hf].
+      split; [|reflexivity]. unfold expect. cbn [snd fst]. do 3 eexists. reflexivity.
+    - destruct He as (s & -> & H1 & H2). cbn [sbind finish sim]. intros _. split; [|exact Hf].
+      split; [|reflexivity]. unfold expect. cbn [snd fst]. exists s. repeat split; assumption.
+  Qed.
+
+  Lemma bind_if {A B} (c : bool) (x y : outcome A) (f : A -> world -> outcome B) :
+    bind (if c then x else y) f = if c then bind x f else bind y f.
+  Proof. destruct c; reflexivity. Qed.
+
+  (** *** for loops *)
+  Lemma sim_for stk ctx lv b n : forall res w,
+    scope_clist scope_cmd (FLoop :: ctx) b = [] -> funs_ok (sh w) -> length ctx <= lv -> snd res = Normal ->
+    sim (expect_s ctx lv) (bind (for_iter rec n b (exempt stk) res w) finish)
+        (sfor srec n b stk (fst res) (emb w 0 0 (S lv))).
+  Proof.
+    induction n as [|n IH]; intros res w Hs Hf Hl Hn; cbn [for_iter sfor].
+    - cbn [bind finish sim]. intros _. split; [|exact Hf]. split; [|reflexivity].
+      destruct res as [code fl]. cbn [snd fst] in *. subst fl. unfold expect. cbn [snd fst]. reflexivity.
+    - rewrite bind_assoc.
+      eapply (sim_bind w) with (P := expect_s (FLoop :: ctx) (S lv)).
+      + replace (exempt stk) with (exempt (PBody :: stk)) by reflexivity.
+        apply sim_clist; [exact Hs|exact Hf|cbn [length]; lia].
+      + intros r w1. rewrite !bind_if. destruct (is_return_or_exit r); [apply mono_same; reflexivity|].
+        destruct (is_break r || is_continue (dec_result r)); [apply mono_same; reflexivity|].
+        apply mono_bind; [apply mono_for; assumption|]. intros; apply mono_finish.
+      + intros ->. reflexivity.
+      + intros r w1 _ Hg HP Hf1. rewrite !bind_if.
+        change (bind (Out r w1) finish) with (finish r w1).
+        change (bind (Out (dec_result r) w1) finish) with (finish (dec_result r) w1).
+        apply (body_step ctx lv r w1 _ _ (fun rv s2 => sfor srec n b stk rv s2)); [exact HP|exact Hf1|].
+        intros Hd. apply (IH (dec_result r) w1); assumption.
+      + apply mono_clist; assumption.
+  Qed.
+
+  (** *** case *)
+  Lemma sim_case stk ctx lv arms : forall force res w rv,
+    flat_map (fun a : bool * post * option clist => match snd a with Some b => scope_clist scope_cmd ctx b | None => [] end) arms = [] ->
+    funs_ok (sh w) -> length ctx <= lv -> snd res = Normal ->
+    match rv with Some v => fst res = v | None => fst res = last (sh w) end ->
+    sim (expect_s ctx lv) (bind (case_iter rec arms force (exempt stk) res w) finish)
+        (scase srec arms force rv stk (emb w 0 0 lv)).
+  Proof.
+    induction arms as [|[[m pa] body] arms IH]; intros force res w rv Hs Hf Hl Hn Hrv; cbn [case_iter scase].
+    - cbn [bind finish sim]. intros _. split; [|exact Hf]. split; [|reflexivity].
+      destruct res as [code fl]. cbn [snd fst] in *. subst fl. unfold expect. cbn [snd fst].
+      destruct rv as [v|]; subst; [reflexivity|]. change (set_last (last (sh w)) (set_last (last (sh w)) w)) with (set_last (last (sh w)) w). rewrite emb_last_id. reflexivity.
+    - cbn [flat_map snd] in Hs. apply app_eq_nil in Hs as [Hs1 Hs2].
+      destruct (force || m); [|apply IH; assumption].
+      destruct body as [b|].
+      + rewrite bind_assoc. eapply (sim_bind w) with (P := expect_s ctx lv).
+        * replace (exempt stk) with (exempt (PBody :: stk)) by reflexivity. apply sim_clist; assumption.
+        * intros r w1. rewrite bind_if. destruct (negb (is_normal r)); [apply mono_same; reflexivity|].
+          destruct pa; [apply mono_same; reflexivity| |]; (apply mono_bind; [apply mono_case; assumption|intros; apply mono_finish]).
+        * intros ->. reflexivity.
+        * intros r w1 _ Hg HP Hf1. rewrite bind_if.
+          destruct (is_normal r) eqn:En; cbn [negb].
+          -- rewrite (expect_s_normal _ _ _ _ _ HP En). cbn [sbind].
+             destruct pa.
+             ++ cbn [bind finish sim]. intros _. split; [|exact Hf1]. split; [|reflexivity].
+                destruct HP as [HP Hsy]. destruct r as [code fl]. cbn [snd fst is_normal] in *.
+                destruct fl; try discriminate En. unfold expect. cbn [snd fst].
+                change (set_last code (set_last code w1)) with (set_last code w1). rewrite (set_last_id code w1) by exact Hsy. reflexivity.
+             ++ apply IH; try assumption; [destruct r as [? []]; try discriminate En; reflexivity|]. symmetry; apply HP.
+             ++ apply IH; try assumption; [destruct r as [? []]; try discriminate En; reflexivity|]. symmetry; apply HP.
+          -- cbn [bind finish sim]. intros _. split; [|exact Hf1].
+             assert (He : expect_s ctx lv r (set_last (fst r) w1)
+                            (sbind (slist srec b (PBody :: stk) (emb w 0 0 lv))
+                               (fun s1 => match pa with
+                                          | PExit => SNorm s1
+                                          | PFall => scase srec arms true None stk s1
+                                          | PNext => scase srec arms false None stk s1
+                                          end))).
+             { rewrite (set_last_id (fst r) w1) by apply HP. apply expect_s_stop; [exact HP|exact En|].
+               intros s Hb. destruct pa; [reflexivity| |]; apply scase_skip, Hb. }
+             exact He.
+        * apply mono_clist; assumption.
+      + rewrite busy_emb0. cbn [bind negb is_normal success snd].
+        destruct pa.
+        * cbn [bind finish sim]. intros _. split; [|exact Hf]. split; reflexivity.
+        * apply IH; try assumption; reflexivity.
+        * apply IH; try assumption; reflexivity.
+  Qed.
+
+  (** *** elif / else *)
+  Lemma sim_elses stk ctx lv elses : forall w,
+    flat_map (fun e : option clist * clist => match fst e with Some ec => scope_clist scope_cmd ctx ec | None => [] end
+                       ++ scope_clist scope_cmd ctx (snd e)) elses = [] ->
+    funs_ok (sh w) -> length ctx <= lv ->
+    sim (expect_s ctx lv) (elses_iter rec elses (exempt stk) w) (selses srec elses stk (emb w 0 0 lv)).
+  Proof.
+    induction elses as [|[[ec|] body] elses IH]; intros w Hs Hf Hl; cbn [elses_iter selses].
+    - intros _. split; [|exact Hf]. split; reflexivity.
+    - cbn [flat_map fst snd] in Hs. apply app_eq_nil in Hs as [Hs1 Hs3]. apply app_eq_nil in Hs1 as [Hs1 Hs2].
+      eapply (sim_bind w) with (P := expect_s ctx lv).
+      + replace true with (exempt (PCond :: stk)) by reflexivity. apply sim_clist; assumption.
+      + intros r w1. destruct (negb (is_normal r)); [apply mono_same; reflexivity|].
+        destruct (is_success r); [apply mono_clist|apply mono_elses]; assumption.
+      + intros ->. reflexivity.
+      + intros r w1 _ Hg HP Hf1. destruct (is_normal r) eqn:En; cbn [negb].
+        * rewrite (expect_s_normal _ _ _ _ _ HP En). cbn [sbind].
+          assert (Hok : ok (emb w1 0 0 lv) = is_success r).
+          { destruct HP as [_ Hsy]. unfold ok, is_success. rewrite slast_emb, Hsy. reflexivity. }
+          rewrite Hok. destruct (is_success r).
+          -- replace (exempt stk) with (exempt (PBody :: stk)) by reflexivity. apply sim_clist; assumption.
+          -- apply IH; assumption.
+        * intros _. split; [|exact Hf1]. apply expect_s_stop; [exact HP|exact En|].
+          intros s Hb. destruct (ok s); [apply slist_skip, Hb|apply selses_skip, Hb].
+      + apply mono_clist; assumption.
+    - cbn [flat_map fst snd app] in Hs. apply app_eq_nil in Hs as [Hs1 Hs3].
+      replace (exempt stk) with (exempt (PBody :: stk)) by reflexivity. apply sim_clist; assumption.
+  Qed.
+
+  Lemma expect_s_c c stk ctx lv r w o : checks c = false -> expect_s ctx lv r w o -> expect_c c stk ctx lv r w o.
+  Proof. intros Hc [He _]. unfold expect_c. rewrite Hc. exact He. Qed.
+
+  Lemma sim_weaken {A} (P Q : A -> world -> sres -> Prop) m o :
+    (forall a w, P a w o -> Q a w o) -> sim P m o -> sim Q m o.
+  Proof. intros H Hs. destruct m; cbn [sim] in *; [|exact Hs]. intros Hg. destruct (Hs Hg). split; auto. Qed.
+
+  (** *** commands *)
+  Lemma sim_cmd c stk ctx lv w :
+    scope_cmd ctx c = [] -> funs_ok (sh w) -> length ctx <= lv ->
+    sim (expect_c c stk ctx lv) (exec_cmd rec recw c (exempt stk) w) (scmd srec srecw c stk (emb w 0 0 lv)).
+  Proof.
+    intros Hs Hf Hl. destruct c as [l|v lim|b|b|c t elses|u c b|ar n b|arms|f body]; cbn [exec_cmd scmd scope_cmd] in *.
+    - apply sim_leaf; assumption.
+    - intros _. split; [|exact Hf]. cbn [b_sh emb].
+      destruct (Nat.ltb (ctr v (sh w)) lim).
+      + apply (check_ok (Tick v lim) stk ctx lv 0 (upd_sh (bump v) w)). reflexivity.
+      + apply (check_ok (Tick v lim) stk ctx lv 1 (upd_sh (bump v) w)). reflexivity.
+    - eapply sim_weaken; [intros a w0; apply expect_s_c; reflexivity|].
+      replace (exempt stk) with (exempt (PBody :: stk)) by reflexivity. apply sim_clist; assumption.
+    - (* subshell *)
+      replace (child false (emb w 0 0 lv)) with (emb w 0 0 0)
+        by (unfold child, emb; cbn; rewrite orb_false_r; reflexivity).
+      eapply (sim_bind w) with (P := expect_s [] 0).
+      + replace (exempt stk) with (exempt (PBody :: stk)) by reflexivity. apply sim_clist; [exact Hs|exact Hf|apply Nat.le_refl].
+      + intros r w1. apply mono_same; reflexivity.
+      + intros ->. reflexivity.
+      + intros r w1 _ Hg [HP Hsy] Hf1. intros _. split; [|exact Hf].
+        destruct r as [code fl]. unfold expect in HP. cbn [fst snd] in *.
+        assert (Hgoal : forall o1, reap (emb w 0 0 lv) o1 = SNorm (emb (set_last code (restore w w1)) 0 0 lv) ->
+                  expect_c (Subshell b) stk ctx lv (code, Normal) (restore w w1) (sbind (reap (emb w 0 0 lv) o1) (errexit_check stk))).
+        { intros o1 ->. cbn [sbind]. apply (check_ok (Subshell b) stk ctx lv code (restore w w1)). reflexivity. }
+        destruct fl.
+        * apply Hgoal. rewrite HP. reflexivity.
+        * destruct HP as [_ HP]. cbn in HP. lia.
+        * destruct HP as [_ HP]. destruct levels; discriminate HP.
+        * destruct HP as (b0 & c0 & l0 & ->). apply Hgoal. reflexivity.
+        * destruct HP as (s & -> & H1 & H2). apply Hgoal. cbn [reap]. rewrite H1, H2. reflexivity.
+      + apply mono_clist; assumption.
+    - (* if *)
+      apply app_eq_nil in Hs as [Hs1 Hs2]. apply app_eq_nil in Hs2 as [Hs2 Hs3].
+      eapply sim_weaken; [intros a w0; apply expect_s_c; reflexivity|].
+      eapply (sim_bind w) with (P := expect_s ctx lv).
+      + replace true with (exempt (PCond :: stk)) by reflexivity. apply sim_clist; assumption.
+      + intros r w1. destruct (negb (is_normal r)); [apply mono_same; reflexivity|].
+        destruct (is_success r); [apply mono_clist|apply mono_elses]; assumption.
+      + intros ->. reflexivity.
+      + intros r w1 _ Hg HP Hf1. destruct (is_normal r) eqn:En; cbn [negb].
+        * rewrite (expect_s_normal _ _ _ _ _ HP En). cbn [sbind].
+          assert (Hok : ok (emb w1 0 0 lv) = is_success r).
+          { destruct HP as [_ Hsy]. unfold ok, is_success. rewrite slast_emb, Hsy. reflexivity. }
+          rewrite Hok. destruct (is_success r).
+          -- replace (exempt stk) with (exempt (PBody :: stk)) by reflexivity. apply sim_clist; assumption.
+          -- apply sim_elses; assumption.
+        * intros _. split; [|exact Hf1]. apply expect_s_stop; [exact HP|exact En|].
+          intros s Hb. destruct (ok s); [apply slist_skip, Hb|apply selses_skip, Hb].
+      + apply mono_clist; assumption.
+    - (* while / until *)
+      apply app_eq_nil in Hs as [Hs1 Hs2].
+      eapply sim_weaken; [intros a w0; apply expect_s_c; reflexivity|].
+      apply (Hrecw u c b stk ctx lv success w); try assumption. reflexivity.
+    - (* for *)
+      eapply sim_weaken; [intros a w0; apply expect_s_c; reflexivity|].
+      apply (sim_for stk ctx lv b n success w); try assumption. reflexivity.
+    - (* case *)
+      eapply sim_weaken; [intros a w0; apply expect_s_c; reflexivity|].
+      apply (sim_case stk ctx lv arms false success w (Some 0)); try assumption; reflexivity.
+    - (* function definition *)
+      intros _. split.
+      + apply (check_ok (FunDef f body) stk ctx lv 0 (upd_sh (define f body) w)). reflexivity.
+      + intros f' body'. cbn. destruct (Nat.eqb f' f); [intros E; inversion E; subst; exact Hs|apply Hf].
+  Qed.
+
+  (** *** one iteration of while / until *)
+  Lemma sim_while_step u c b stk ctx lv res w :
+    scope_clist scope_cmd (FCond :: ctx) c = [] -> scope_clist scope_cmd (FLoop :: ctx) b = [] ->
+    funs_ok (sh w) -> length ctx <= lv -> snd res = Normal ->
+    sim (expect_s ctx lv) (while_step rec recw u c b (exempt stk) res w)
+        (swhile_step srec srecw u c b stk (fst res) (emb w 0 0 (S lv))).
+  Proof.
+    intros Hc Hb Hf Hl Hn. unfold while_step, swhile_step.
+    eapply (sim_bind w) with (P := expect_s (FCond :: ctx) (S lv)).
+    - replace true with (exempt (PCond :: stk)) by reflexivity. apply sim_clist; [exact Hc|exact Hf|cbn [length]; lia].
+    - intros rc w1. destruct (negb (is_normal rc)).
+      + apply mono_out. msimp. match goal with |- context [if ?x then _ :: _ else _] => destruct x end;
+          repeat apply ext_cons; apply ext_refl.
+      + destruct (Bool.eqb (is_success rc) u); [apply mono_same; reflexivity|].
+        eapply mono_shift; [|apply mono_bind; [apply mono_clist; assumption|]]; [reflexivity|].
+        intros r w3. destruct (is_return_or_exit r); [apply mono_finish|].
+        destruct (is_break r || is_continue (dec_result r)); [apply mono_finish|apply Mrecw].
+    - intros ->. reflexivity.
+    - intros rc w1 _ Hg HP Hf1. rewrite (set_last_id (fst rc) w1) by apply HP.
+      destruct (is_normal rc) eqn:En; cbn [negb].
+      + (* the condition ended normally *)
+        rewrite (expect_s_normal _ _ _ _ _ HP En). cbn [sbind].
+        assert (Hok : ok (emb w1 0 0 (S lv)) = is_success rc).
+        { destruct HP as [_ Hsy]. unfold ok, is_success. rewrite slast_emb, Hsy. reflexivity. }
+        rewrite Hok. destruct (Bool.eqb (is_success rc) u).
+        * cbn [finish sim]. intros _. split; [|exact Hf1]. split; [|reflexivity].
+          destruct res as [code fl]. cbn [snd fst] in *. subst fl. unfold expect. cbn [snd fst]. reflexivity.
+        * eapply (sim_bind w1) with (P := expect_s (FLoop :: ctx) (S lv)).
+          -- replace (exempt stk) with (exempt (PBody :: stk)) by reflexivity.
+             apply sim_clist; [exact Hb|exact Hf1|cbn [length]; lia].
+          -- intros r w3. destruct (is_return_or_exit r); [apply mono_finish|].
+             destruct (is_break r || is_continue (dec_result r)); [apply mono_finish|apply Mrecw].
+          -- intros ->. reflexivity.
+          -- intros r w3 _ Hg3 HP3 Hf3.
+             apply (body_step ctx lv r w3 _ _ (fun rv s2 => srecw u c b stk rv s2)); [exact HP3|exact Hf3|].
+             intros Hd. apply (Hrecw u c b stk ctx lv (dec_result r) w3); assumption.
+          -- apply mono_clist; assumption.
+      + (* break/continue/return/exit in the condition *)
+        cbn [finish sim]. msimp. intros Hgh.
+        assert (Hmk : ((is_break rc || is_continue rc) && Bool.eqb (is_success rc) u && negb (Nat.eqb (fst res) (fst rc))) = false).
+        { destruct (_ && negb (Nat.eqb (fst res) (fst rc))); [discriminate Hgh|reflexivity]. }
+        split; [|exact Hf1].
+        destruct HP as [HP Hsy]. destruct rc as [code fl]. unfold expect in HP. cbn [fst snd] in *.
+        unfold is_break, is_continue, is_success, dec_result in *. cbn [fst snd] in *.
+        assert (Hid : set_last code w1 = w1) by (apply set_last_id, Hsy).
+        destruct fl as [|k|k| |]; try discriminate En; cbn [dec orb andb] in *.
+        * (* break *)
+          destruct HP as [-> Hk]. cbn [sbind]. unfold ok. rewrite slast_emb. cbn [set_last upd_sh sh sh_set_last last].
+          split; [|reflexivity]. unfold expect.
+          destruct (Bool.eqb (Nat.eqb code 0) u).
+          -- apply negb_false_iff, Nat.eqb_eq in Hmk. rewrite Hmk.
+             destruct k as [|k']; cbn [snd fst dec]; [reflexivity|]. split; [reflexivity|]. cbn [length] in Hk. lia.
+          -- rewrite slist_skip by reflexivity. cbn [sbind].
+             destruct k as [|k']; cbn [snd fst dec]; [reflexivity|]. split; [reflexivity|]. cbn [length] in Hk. lia.
+        * (* continue: it cannot target this loop from its own condition *)
+          destruct HP as [-> Hk]. destruct k as [|k']; [discriminate Hk|]. cbn [nth_error] in Hk.
+          cbn [sbind]. unfold ok. rewrite slast_emb. cbn [set_last upd_sh sh sh_set_last last].
+          split; [|reflexivity]. unfold expect. cbn [snd fst dec].
+          destruct (Bool.eqb (Nat.eqb code 0) u).
+          -- apply negb_false_iff, Nat.eqb_eq in Hmk. rewrite Hmk. split; [reflexivity|exact Hk].
+          -- rewrite slist_skip by reflexivity. cbn [sbind]. split; [reflexivity|exact Hk].
+        * destruct HP as (b0 & c0 & l0 & ->). cbn [sbind]. split; [|reflexivity]. unfold expect. cbn [snd fst]. do 3 eexists. reflexivity.
+        * destruct HP as (s & -> & H1 & H2). cbn [sbind]. split; [|reflexivity]. unfold expect. cbn [snd fst]. exists s. repeat split; assumption.
+    - apply mono_clist; assumption.
+  Qed.
 End Sim.
+
+Lemma sexec_skip fuel c stk s : busy s = true -> sexec fuel c stk s = SNorm s.
+Proof. intros H. destruct fuel; cbn [sexec]; rewrite H; reflexivity. Qed.
+
+(** ** the simulation theorem, for every fuel, every nesting depth, every position stack *)
+Theorem sim_exec fuel :
+  (forall c stk ctx l w, scope_cmd ctx c = [] -> funs_ok (sh w) -> length ctx <= l ->
+     sim (expect_c c stk ctx l) (exec fuel c (exempt stk) w) (sexec fuel c stk (emb w 0 0 l))) /\
+  (forall u c b stk ctx l res w,
+     scope_clist scope_cmd (FCond :: ctx) c = [] -> scope_clist scope_cmd (FLoop :: ctx) b = [] ->
+     funs_ok (sh w) -> length ctx <= l -> snd res = Normal ->
+     sim (expect_s ctx l) (while_loop fuel u c b (exempt stk) res w)
+         (swhile fuel u c b stk (fst res) (emb w 0 0 (S l)))).
+Proof.
+  induction fuel as [|f [IH1 IH2]]; split; intros.
+  - cbn. intros _. reflexivity.
+  - cbn. intros _. reflexivity.
+  - cbn [exec sexec]. rewrite busy_emb0.
+    apply sim_cmd; try assumption; try apply (mono_exec f); try apply sexec_skip.
+  - cbn [while_loop swhile].
+    apply sim_while_step; try assumption; try apply (mono_exec f); try apply sexec_skip.
+Qed.
+
+(** ** programs *)
+Lemma sprogram_skip srec cs s : busy s = true -> sprogram srec cs s = SNorm s.
+Proof.
+  intros H. induction cs as [|c cs IH]; cbn [sprogram]; [reflexivity|].
+  rewrite (slist_skip srec) by exact H. exact IH.
+Qed.
+
+Lemma sim_program fuel cs : forall c res w,
+  flat_map (scope_clist scope_cmd []) (c :: cs) = [] -> funs_ok (sh w) ->
+  sim (expect_s [] 0) (program_items (exec fuel) (c :: cs) res w) (sprogram (sexec fuel) (c :: cs) (emb w 0 0 0)).
+Proof.
+  pose proof (sim_exec fuel) as [H1 H2]. pose proof (mono_exec fuel) as [M1 M2].
+  assert (Hclist : forall l w, scope_clist scope_cmd [] l = [] -> funs_ok (sh w) ->
+            sim (expect_s [] 0) (exec_clist (exec fuel) l false w) (slist (sexec fuel) l [] (emb w 0 0 0))).
+  { intros l w Hs Hf. change false with (exempt []).
+    apply (sim_clist (exec fuel) (sexec fuel)); try assumption; try apply Nat.le_refl;
+      try apply sexec_skip. }
+  induction cs as [|c' cs IH]; intros c res w Hs Hf; cbn [flat_map] in Hs; apply app_eq_nil in Hs as [Hs1 Hs2];
+    cbn [program_items sprogram].
+  - eapply (sim_bind w) with (P := expect_s [] 0).
+    + apply Hclist; assumption.
+    + intros r w1. destruct (negb (is_normal r)); apply mono_same; reflexivity.
+    + intros ->. reflexivity.
+    + intros r w1 _ Hg HP Hf1. rewrite (set_last_id (fst r) w1) by apply HP.
+      destruct (is_normal r) eqn:En; cbn [negb]; intros _; (split; [|exact Hf1]).
+      * rewrite (expect_s_normal _ _ _ _ _ HP En). cbn [sbind]. rewrite <- (expect_s_normal _ _ _ _ _ HP En). exact HP.
+      * apply expect_s_stop; [exact HP|exact En|]. intros; reflexivity.
+    + apply mono_clist; assumption.
+  - eapply (sim_bind w) with (P := expect_s [] 0).
+    + apply Hclist; assumption.
+    + intros r w1. destruct (negb (is_normal r)); [apply mono_same; reflexivity|].
+      apply (mono_shift w1 (set_last (fst r) w1)); [reflexivity|].
+      exact (mono_program (exec fuel) M1 (c' :: cs) r (set_last (fst r) w1)).
+    + intros ->. reflexivity.
+    + intros r w1 _ Hg HP Hf1. rewrite (set_last_id (fst r) w1) by apply HP.
+      destruct (is_normal r) eqn:En; cbn [negb].
+      * rewrite (expect_s_normal _ _ _ _ _ HP En). cbn [sbind]. exact (IH c' r w1 Hs2 Hf1).
+      * intros _. split; [|exact Hf1]. apply expect_s_stop; [exact HP|exact En|].
+        intros s Hb. apply (sprogram_skip (sexec fuel) (c' :: cs)); exact Hb.
+    + apply mono_clist; assumption.
+Qed.
+
+(** ** what an observer sees: how the run ended, the final [$?], the output *)
+Inductive ending := ENormal | EReturn | EExit | EStray.
+Definition obs_model (o : outcome result) : option (ending * status * list event) :=
+  match o with
+  | Out r w =>
+      Some (match snd r with Normal => ENormal | ReturnFn => EReturn | ExitShell => EExit | _ => EStray end,
+            fst r, out w)
+  | OutOfFuel _ => None
+  end.
+Definition obs_spec (o : sres) : option (ending * status * list event) :=
+  match o with
+  | SNorm s => Some (ENormal, slast s, b_out s)
+  | SRet s => Some (EReturn, slast s, b_out s)
+  | SExit s => Some (EExit, slast s, b_out s)
+  | SFuel => None
+  end.
+Definition ghost_free (o : outcome result) : Prop :=
+  match o with Out _ w => ghost w = [] | OutOfFuel g => g = [] end.
+
+Theorem cf_simulation fuel p :
+  well_scoped p -> sim (expect_s [] 0) (run_model fuel p) (run_spec fuel p).
+Proof.
+  unfold well_scoped, scope_program, run_model, run_spec. intros Hs.
+  destruct p as [|c cs].
+  - cbn. intros _. split; [split; reflexivity|]. intros f body E. discriminate E.
+  - apply (sim_program fuel cs c success init_world Hs). intros f body E. discriminate E.
+Qed.
+
+Theorem cf_trace_eq fuel p :
+  well_scoped p -> ghost_free (run_model fuel p) -> obs_model (run_model fuel p) = obs_spec (run_spec fuel p).
+Proof.
+  intros Hs Hg. pose proof (cf_simulation fuel p Hs) as H.
+  destruct (run_model fuel p) as [r w|g]; cbn [sim ghost_free obs_model] in *.
+  - destruct (H Hg) as [[He Hsy] _]. destruct r as [code fl]. unfold expect in He. cbn [fst snd] in *.
+    destruct fl.
+    + rewrite He. reflexivity.
+    + destruct He as [_ He]. cbn in He. lia.
+    + destruct He as [_ He]. destruct levels; discriminate He.
+    + destruct He as (b & c & l & ->). reflexivity.
+    + destruct He as (s & -> & H1 & H2). cbn. rewrite H1, H2. reflexivity.
+  - rewrite (H Hg). reflexivity.
+Qed.
